@@ -467,8 +467,16 @@ func c04Verify(res *fw.Result, kindName, kind string, v any, wantDump string, te
 		withReader[k] = x
 	}
 	detail = withReader
-	objs, serr, span := xmlScanHostile(text, mode)
+	// ... and driven in one of six legal consumer styles, also chosen by the text
+	style := (len(text)/7 + int(text[len(text)/3])) % len(xmlConsumerStyles)
+	res.Add("scanner_consumer_"+xmlConsumerStyles[style], 1)
+	detail["consumer"] = xmlConsumerStyles[style]
+	sc := xmlScanStyled(&xmlHostileReader{data: text, mode: mode, rnd: 0x9E3779B97F4A7C15 ^ uint64(len(text))}, style, len(text))
+	objs, skipped, serr, span := sc.Objs, sc.Skipped, sc.Err, sc.Pan
 	res.Event(int64(len(objs)))
+	for _, p := range sc.Proto {
+		res.Violate("C04/scanner/"+kind+"/protocol", p, det(text, nil))
+	}
 	switch {
 	case span != "":
 		res.Violate("C04/scanner/"+kind+"/panic", "osmxml.Scanner panicked on the library's own output", det(text, map[string]any{"panic": xmlTrim(span, 3000)}))
@@ -484,6 +492,9 @@ func c04Verify(res *fw.Result, kindName, kind string, v any, wantDump string, te
 				res.Violate("C04/scanner/"+kind+"/unexpected-"+positions[i].Kind, fmt.Sprintf("text holds a %s element at %v (action %d) that corresponds to nothing in the value",
 					positions[i].Kind, positions[i].Path, positions[i].ActionIdx), det(text, nil))
 				break
+			}
+			if skipped[i] {
+				continue
 			}
 			w, g := eq.Dump(xmlNorm(want)), eq.Dump(xmlNorm(o))
 			if w != g {
@@ -836,6 +847,7 @@ func init() {
 			"a create action whose OSM holds more than its one new element (further elements, bounds, changesets, notes, users) and header attributes on an action's OSM/Old/New are outside the documented action shape; one non-asserting probe case records what the library does with them (probe_* counters; on the current tree: all of these are lost, see notes/C04.md)",
 			"concurrent cases: marshalling is taken to be a function of its argument, so independent values marshalled at the same time must not influence each other and a data race with a library frame is a violation; the yields in the io.Writer only perturb the schedule",
 			"the scanner reads the marshalled text through a conforming but unhelpful io.Reader chosen by the text (whole, one byte at a time, half of the request, random chunks, last data together with io.EOF, zero-length reads with nil error in between); optional times are drawn from a small pool half of the time so that committed == timestamp, update timestamp == parent timestamp, closed_at == created_at, date_closed == date_created and equal times across objects are frequent (all times stay UTC, as the property's quantifier says)",
+			"the scanner is driven in six legal consumer styles chosen by the text (canonical; Err after every Scan; Err once after the k-th Scan; Object twice; Object not fetched for every third object, those positions are not compared; Scan called again after it returned false): read-only accessors and legal call orders must not change what is delivered; the value Err returns in mid-scan is not judged",
 			"the scanner comparison matches delivered objects to the value through the positions an independent tokenizer finds in the text; it is skipped for a text that already failed the vocabulary check",
 		},
 		Cases:   c04Cases,
